@@ -156,6 +156,19 @@ def cases_1d():
         else:
             m["eqs"].append(("eq", var("y"), idx("x", 1, 1)))
         yield ({"ctx": "scalar-subscript", "form": form, "kind": "scalar"}, m, "reject", "subscript-on-scalar:" + form)
+    # a loop variable that hides an Integer parameter of the same name, with the same subscript text used outside the
+    # loop (where it means the parameter) and inside it (where it means the loop variable)
+    for n in range(2, 5):
+        for lo, hi in ((1, 2), (2, 3), (0, 1)):
+            subs_ = [k_ - 1 for k_ in range(lo, hi + 1)]
+            inr = all(1 <= v <= n for v in subs_)
+            kpar = {"name": "k", "type": "Integer", "prefixes": ["parameter"], "dims": [], "attrs": {}, "value": num(n)}
+            m = {"name": "M", "vars": base_vars(n) + [kpar, vdecl("w", [3])], "eqs": [], "ieqs": [], "funcs": []}
+            km1 = ("bin", "-", var("k"), num(1))
+            m["eqs"].append(("eq", var("y"), idx("x", km1)))
+            m["eqs"].append(("for", "k", num(lo), None, num(hi), [("eq", idx("w", ("bin", "+", var("k"), num(1 - lo))), ("bin", "*", num(3), idx("x", km1)))]))
+            yield ({"n": n, "lo": lo, "hi": hi, "ctx": "loop-variable-hides-parameter", "kind": "loop"}, m, "ok" if inr else "reject",
+                   "loop-variable-hides-parameter:" + ("in-range" if inr else "below-1"))
     # a scalar subscripted by a loop variable
     for mm in (1, 2):
         for side in ("lhs", "rhs"):
